@@ -608,8 +608,11 @@ func (e *specEnv) call(ex SCall) Value {
 	case "unwrap":
 		return Value{T: arg(0).T, Term: x.unwrapOf(e.s, arg(0).Term)}
 	case "held":
-		// held(p.mu): the mutex field is identified by its owner object and field
+		// held(p.mu) / held(ptr): the ghost lock bit of the mutex at that address
 		return Value{T: boolT, Term: e.lockHeld(ex.Args[0])}
+	case "addr":
+		// addr(p.mu): the *sync.Mutex value &p.mu
+		return Value{T: types.NewPointer(e.resolveType("sync.Mutex")), Term: e.muAddrOf(ex.Args[0])}
 	case "implies":
 		return Value{T: boolT, Term: c.Implies(e.evalBool(ex.Args[0]), e.evalBool(ex.Args[1]))}
 	case "uf":
@@ -656,23 +659,58 @@ func (e *specEnv) call(ex SCall) Value {
 	return Value{}
 }
 
-// lockHeld evaluates held(<path>.mu): the ghost lock bit of the mutex stored in a struct field.
-func (e *specEnv) lockHeld(ex SExpr) *Term {
-	sel, ok := ex.(SSel)
-	if !ok {
-		e.fail("held() needs a field path")
+// muAddrOf evaluates a spec expression naming a mutex: a *sync.Mutex valued expression, or a field path x.mu whose
+// field is a sync.Mutex (the address of that field).
+func (e *specEnv) muAddrOf(ex SExpr) *Term {
+	if sel, ok := ex.(SSel); ok {
+		owner := e.ev(sel.X)
+		if pt, ok := owner.T.Underlying().(*types.Pointer); ok {
+			if obj, _, _ := types.LookupFieldOrMethod(owner.T, true, e.tpkgFor(owner.T), sel.Name); obj != nil {
+				if f, ok := obj.(*types.Var); ok && isMutexType(f.Type()) {
+					return e.x.muAddr(e.s, pt.Elem(), sel.Name, owner.Term)
+				}
+			}
+		}
 	}
-	owner := e.ev(sel.X)
-	pt, ok := owner.T.Underlying().(*types.Pointer)
-	if !ok {
-		e.fail("held(): owner must be a pointer")
+	v := e.ev(ex)
+	if pt, ok := v.T.Underlying().(*types.Pointer); ok && isMutexType(pt.Elem()) {
+		return v.Term
 	}
-	rn := lockRegion(pt.Elem(), sel.Name)
-	return e.x.c.Read(e.x.h.region(e.s, rn, 1, SBool), owner.Term, nil)
+	e.fail("held()/lock()/addr() need a mutex field path or a *sync.Mutex value")
+	return nil
 }
 
-func lockRegion(owner types.Type, field string) string {
-	return "LOCK|" + typeStr(owner) + "|" + field
+func isMutexType(t types.Type) bool {
+	s := typeStr(t)
+	return s == "sync.Mutex" || s == "sync.RWMutex"
+}
+
+// lockHeld evaluates held(m): the ghost lock bit of the mutex at that address.
+func (e *specEnv) lockHeld(ex SExpr) *Term {
+	a := e.muAddrOf(ex)
+	return e.x.c.Read(e.x.h.region(e.s, lockRegionName, 1, SBool), a, nil)
+}
+
+const lockRegionName = "LOCK"
+
+// muAddr is the address of the mutex stored in field `field` of the object `owner` of type T: an injective
+// function of the owner, distinct for distinct (type, field) pairs.
+func (x *fnv) muAddr(s *State, T types.Type, field string, owner *Term) *Term {
+	c := x.c
+	name := "muaddr_" + sanitize(typeStr(T)) + "_" + field
+	a := c.App(name, SInt, owner)
+	inj := c.And(c.Gt(a, c.Int(0)), c.Eq(c.App("muowner", SInt, a), owner), c.Eq(c.App("mutag", SInt, a), x.strLit(name)))
+	if a.HasBVar() {
+		if s.binderFacts != nil {
+			*s.binderFacts = append(*s.binderFacts, inj)
+		}
+		return a
+	}
+	if !s.typed[a] {
+		s.typed[a] = true
+		s.Assume(inj)
+	}
+	return a
 }
 
 // evalModTargets interprets a modifies clause.
@@ -847,14 +885,9 @@ func (e *specEnv) evalModTargets(ex SExpr) []modTarget {
 				}
 				return []modTarget{{prefix: s.Val, match: func(ref, idx *Term) *Term { return c.True() }}}
 			case "lock":
-				sel, ok := ex.Args[0].(SSel)
-				if !ok {
-					e.fail("lock() needs a field path")
-				}
-				owner := e.ev(sel.X)
-				rn := lockRegion(owner.T.Underlying().(*types.Pointer).Elem(), sel.Name)
-				x.h.schema[rn] = []regionSchema{{rn, 1, SBool}}
-				return []modTarget{{prefix: rn, match: func(ref, idx *Term) *Term { return c.Eq(ref, owner.Term) }}}
+				a := e.muAddrOf(ex.Args[0])
+				x.h.schema[lockRegionName] = []regionSchema{{lockRegionName, 1, SBool}}
+				return []modTarget{{prefix: lockRegionName, match: func(ref, idx *Term) *Term { return c.Eq(ref, a) }}}
 			case "nothing":
 				return nil
 			case "when":
